@@ -17,6 +17,7 @@ import (
 type Bar struct {
 	index        int // used by heap
 	priority     int // used by heap
+	popped       bool
 	frameCh      chan *renderFrame
 	operateState chan func(*bState)
 	container    *Progress
